@@ -13,10 +13,10 @@
    determined by the code; the operations therefore carry the order [ord] in which items are
    processed (observed in the correspondence run, universally quantified in the theorems).
 
-   [lk] = "Delete/DeleteUpstream take the store mutex that doSyncLocked holds" (the candidate
-   repair).  The pinned code has lk = false: a Delete issued by another goroutine while a
-   flush is running executes immediately (fop interleaved before the first API call of an
-   item); with lk = true it waits until the flush has returned. *)
+   [lk : locks] says which foreground operations take the store mutex that doSyncLocked holds
+   (see [locks] below).  The originally pinned code takes it nowhere: a Delete or Save issued by
+   another goroutine while a flush is running executes immediately (fop interleaved before the
+   first API call of an item); an operation that takes the mutex waits until the flush has returned. *)
 From KG Require Import Prelude C13_Model.
 Open Scope Z_scope.
 
@@ -233,14 +233,23 @@ Definition do_fop (n sh : Z) (w : bool) (f : fop) (x : world) : world * res :=
 
 Definition is_del (f : fop) : bool := match f with FSave _ => false | _ => true end.
 
+(* which foreground operations take the store mutex that a running flush (doSyncLocked) holds:
+   lk_del  = Delete / DeleteUpstream (first repair),
+   lk_save = Save in write-through mode (second repair; a periodic-mode Save only writes the local map).
+   An operation that takes the mutex while a flush is running waits until the flush has returned. *)
+Record locks := mkLocks { lk_del : bool; lk_save : bool }.
+Definition nolocks : locks := mkLocks false false.
+Definition defers (lk : locks) (w : bool) (f : fop) : bool :=
+  match f with FSave _ => (lk_save lk && w)%bool | _ => lk_del lk end.
+
 (* interleaved operations: executed at once, or (lk and deleting) queued until the flush returns.
    Returns (world, queue, results in execution order, crashed?) *)
-Fixpoint run_inter (n : Z) (lk : bool) (sh : Z) (w : bool) (fs : list fop) (x : world) (dq : list fop) (rs : list res)
+Fixpoint run_inter (n : Z) (lk : locks) (sh : Z) (w : bool) (fs : list fop) (x : world) (dq : list fop) (rs : list res)
   : world * list fop * list res * bool :=
   match fs with
   | [] => (x, dq, rs, false)
   | f :: r =>
-      if (lk && is_del f)%bool then run_inter n lk sh w r x (dq ++ [f]) rs
+      if defers lk w f then run_inter n lk sh w r x (dq ++ [f]) rs
       else let '(x1, q) := do_fop n sh w f x in
            if res_eqb q RCrash then (x1, dq, rs ++ [q], true)
            else run_inter n lk sh w r x1 dq (rs ++ [q])
@@ -252,7 +261,7 @@ Fixpoint key_nodup (l : list key) : bool :=
   match l with [] => true | x :: r => (negb (key_mem x r) && key_nodup r)%bool end.
 
 (* doSyncLocked: items = snapshot of the local store; for each item of the own shard createOrUpdate *)
-Fixpoint flush_go (n : Z) (lk : bool) (sh : Z) (w : bool) (snap : localst) (ord : list key)
+Fixpoint flush_go (n : Z) (lk : locks) (sh : Z) (w : bool) (snap : localst) (ord : list key)
          (inter : list (key * list fop)) (x : world) (dq : list fop) (rs : list res)
   : world * list fop * list res * res :=
   match ord with
@@ -273,7 +282,7 @@ Fixpoint flush_go (n : Z) (lk : bool) (sh : Z) (w : bool) (snap : localst) (ord 
       end
   end.
 
-Definition do_flush (n : Z) (lk : bool) (sh : Z) (w : bool) (ord : list key) (inter : list (key * list fop)) (x : world)
+Definition do_flush (n : Z) (lk : locks) (sh : Z) (w : bool) (ord : list key) (inter : list (key * list fop)) (x : world)
   : world * list res * res :=
   if negb (key_nodup ord) then (x, [], RBad) else
   let snap := wloc x in
@@ -284,7 +293,7 @@ Definition do_flush (n : Z) (lk : bool) (sh : Z) (w : bool) (ord : list key) (in
                    then ROk else RBad
               else out in
   (* operations that were waiting for the mutex run now *)
-  let '(x2, _, rs2, crashed) := run_inter n false sh w dq x1 [] rs in
+  let '(x2, _, rs2, crashed) := run_inter n nolocks sh w dq x1 [] rs in
   (x2, rs2, if crashed then RCrash else out1).
 
 (* objectStore.Load *)
@@ -317,7 +326,7 @@ Definition finish (s : st) (x : world) (r : res) (stp : bool) : st :=
   then mkSt (wapi x) (mkStore (shard (sto s)) (wt (sto s)) (stopped (sto s)) true [])
   else mkSt (wapi x) (mkStore (shard (sto s)) (wt (sto s)) stp false (wloc x)).
 
-Definition step (n : Z) (lk : bool) (s : st) (o : op) : st * (res * list res) :=
+Definition step (n : Z) (lk : locks) (s : st) (o : op) : st * (res * list res) :=
   match o with
   | ORestart sh w => (mkSt (api s) (fresh sh w), (ROk, []))
   | _ =>
@@ -341,14 +350,14 @@ Definition step (n : Z) (lk : bool) (s : st) (o : op) : st * (res * list res) :=
     end
   end.
 
-Fixpoint run_state (n : Z) (lk : bool) (s : st) (ops : list op) : st :=
+Fixpoint run_state (n : Z) (lk : locks) (s : st) (ops : list op) : st :=
   match ops with
   | [] => s
   | o :: r => run_state n lk (fst (step n lk s o)) r
   end.
 
 (* trace: result, results of interleaved operations, API and local contents after every op *)
-Fixpoint run (n : Z) (lk : bool) (s : st) (ops : list op) : list (res * list res * apist * localst) :=
+Fixpoint run (n : Z) (lk : locks) (s : st) (ops : list op) : list (res * list res * apist * localst) :=
   match ops with
   | [] => []
   | o :: r => let '(s', (q, qs)) := step n lk s o in (q, qs, api s', loc (sto s')) :: run n lk s' r
@@ -357,5 +366,5 @@ Fixpoint run (n : Z) (lk : bool) (s : st) (ops : list op) : list (res * list res
 (* a dead placeholder store: nothing can be done before the first ORestart *)
 Definition init (a : apist) : st := mkSt a (mkStore 0 true false true []).
 
-(* which behaviour the tree under test has (false = pinned code; true once Delete/DeleteUpstream lock) *)
-Definition impl_delete_locks : bool := true.
+(* which behaviour the tree under test has *)
+Definition impl_locks : locks := mkLocks true true.
